@@ -1254,6 +1254,15 @@ func (g *Gen) devirtualize(st *State, it types.Type, m *types.Func, recv Val) (*
 	if fn == nil {
 		return nil, Val{}, false
 	}
+	// a contract written on the interface method stays in force when the concrete
+	// method has none of its own (otherwise the call would havoc everything)
+	ck := FuncKey(fn)
+	if fn.Origin() != nil {
+		ck = FuncKey(fn.Origin())
+	}
+	if g.P.ContractFor(ck) == nil && g.P.ContractFor(ifaceMethodKey(it, m)) != nil {
+		return nil, Val{}, false
+	}
 	g.Assumed["closed world: interface "+ShortKey(key)+" is implemented only by "+typeStr(t)+" (every MakeInterface site in non-test code checked)"] = true
 	if recv.K == VScalar && recv.T != nil {
 		g.assume(Implies(Ne(recv.T, IntLit(0)), Eq(App("vp_dyntype", SInt, recv.T), typeID(t))))
